@@ -29,4 +29,20 @@ theorem sync_order : Facts.c14_sync_order =
 theorem applyChunks_order : Facts.c14_applyChunks_order =
     ["Next", "ApplySnapshotChunkSync", "Discard", "RejectPeer", "DiscardSender", "Retry"] := by decide
 
+/-- `types.MaxBlockSizeBytes` (the driver's `Params.valid` bound comes from here) -/
+theorem maxBlockSizeBytes : Facts.c14_MaxBlockSizeBytes = 104857600 := by decide
+
+/-- light/rpc `ConsensusParams` compares `HashConsensusParams` of the answer with the verified
+header's `ConsensusHash` (model: `checkParams`) -/
+theorem params_hash_guard : Facts.c14_params_hash_guard = true := by decide
+
+/-- `State()` takes the validator sets from the verified light blocks (model: `lcState`) -/
+theorem state_vals_from_blocks : Facts.c14_state_vals_from_blocks = true := by decide
+
+/-- node/node.go `startStateSync`: seen commit first, then the state store (model: `startWrites true`;
+`crash_safe_commit_first` is about this order), and the seen commit is written synced -/
+theorem startStateSync_order : Facts.c14_startStateSync_order =
+    ["Sync", "SaveSeenCommit", "Bootstrap", "SwitchToFastSync", "SwitchToConsensus"] := by decide
+theorem seen_commit_synced : Facts.c14_seen_commit_synced = true := by decide
+
 end Tmv.Expect.C14
